@@ -146,7 +146,11 @@ const VARIANT_ATTRS: &[&str] = &[
     // near-miss names: not logos attributes, must be preserved
     "#[tokens]", "#[regex_like(\"x\")]", "#[logos_extra(skip)]", "#[my::token(\"x\")]", "#[cfg_attr(test, token(\"t\"))]",
 ];
-const FIELD_ATTRS: &[&str] = &["#[allow(unused)]", "#[serde(borrow)]", "#[doc = \"field\"]", "#[cfg(test)]"];
+const FIELD_ATTRS: &[&str] = &[
+    "#[allow(unused)]", "#[serde(borrow)]", "#[doc = \"field\"]", "#[cfg(test)]",
+    // logos attributes on a FIELD: ignored by the derive, but they are logos / token / regex attributes and must go
+    "#[logos(ignore)]", "#[token(\"t\")]", "#[regex(\"r+\")]",
+];
 
 fn parse_attrs(text: &str) -> Vec<syn::Attribute> {
     let item: syn::ItemStruct = syn::parse_str(&format!("{} struct S;", text)).expect("attribute text");
